@@ -9,6 +9,7 @@ import (
 	"go/parser"
 	"go/token"
 	"go/types"
+	"golang.org/x/tools/go/ast/astutil"
 	"os"
 	"reflect"
 	"sort"
@@ -630,6 +631,12 @@ func (nz *normaliser) helperOf(info *types.Info, call *ast.CallExpr) *helper {
 		return nil
 	}
 	h := nz.helpers[fn.Origin()]
+	if nzDebug && os.Getenv("MCPCHECK_NZ_TRACE") == fn.Name() {
+		fmt.Printf("NZ-TRACE helperOf %s: h=%v\n", fn.Name(), h != nil)
+		if h != nil {
+			fmt.Printf("NZ-TRACE   litOnly=%v deferOnly=%v unlockDefer=%v known=%v single=%v\n", h.litOnly, h.deferOnly, h.unlockDefer, h.knownFn, h.single != nil)
+		}
+	}
 	if h == nil || h.pk.Types != fn.Pkg() || (h.litOnly && !nz.anyHelper) {
 		return nil
 	}
@@ -893,6 +900,9 @@ func (nz *normaliser) list(list []ast.Stmt) []ast.Stmt {
 		if rep := nz.stmt(st); rep != nil {
 			out = append(out, spliceBlocks(rep)...)
 		} else if pre := nz.hoist(st); pre != nil {
+			if nzDebug {
+				fmt.Printf("NZ-HOIST at %s\n", nz.p.Fset.Position(st.Pos()))
+			}
 			out = append(out, pre...)
 			out = append(out, st)
 		} else {
@@ -1009,10 +1019,18 @@ func (nz *normaliser) stmt(st ast.Stmt) []ast.Stmt {
 			if h := nz.helperOf(info, call); h != nil && h.single == nil {
 				return nz.expand(h, call, nil, false, false)
 			}
+			if rep := nz.wrapLit(call, true); rep != nil {
+				s.X = rep
+				return nil
+			}
 		}
 	case *ast.AssignStmt:
 		if len(s.Rhs) == 1 && (s.Tok == token.DEFINE || s.Tok == token.ASSIGN) {
 			if call, ok := ast.Unparen(s.Rhs[0]).(*ast.CallExpr); ok {
+				if rep := nz.wrapLit(call, true); rep != nil {
+					s.Rhs[0] = rep
+					return nil
+				}
 				if h := nz.helperOf(info, call); h != nil && h.single == nil && h.nres == len(s.Lhs) {
 					for _, l := range s.Lhs {
 						if !nz.pure(info, l) {
@@ -1026,6 +1044,10 @@ func (nz *normaliser) stmt(st ast.Stmt) []ast.Stmt {
 	case *ast.ReturnStmt:
 		if len(s.Results) == 1 {
 			if call, ok := ast.Unparen(s.Results[0]).(*ast.CallExpr); ok {
+				if rep := nz.wrapLit(call, true); rep != nil {
+					s.Results[0] = rep
+					return nil
+				}
 				if h := nz.helperOf(info, call); h != nil && h.single == nil && h.nres > 0 {
 					return nz.expand(h, call, nil, true, false)
 				}
@@ -1545,11 +1567,26 @@ func countReturns(n ast.Node) int {
 // variable which is never reassigned in the calling function (and whose parameter h does not modify) is captured
 // instead of passed: `go c.run(ctx, req, rel)` becomes `go func() { … req … rel … }()` again, the closure it was before it
 // was given a name. (Capturing instead of copying is the same thing exactly when the variable does not change.)
-func (nz *normaliser) wrapGoDefer(call *ast.CallExpr) *ast.CallExpr {
+func (nz *normaliser) wrapGoDefer(call *ast.CallExpr) *ast.CallExpr { return nz.wrapLit(call, false) }
+
+// wrapLit: the call of a helper becomes the call of a literal with the helper's body. keep: the literal has the helper's
+// results (an immediately invoked literal standing where the call stood); otherwise they are discarded (go/defer).
+func (nz *normaliser) wrapLit(call *ast.CallExpr, keep bool) *ast.CallExpr {
 	info := nz.pk.TypesInfo
 	h := nz.helperOfAny(info, call)
-	if h == nil || h.nres != 0 {
+	if h == nil {
 		return nil
+	}
+	if keep && (!h.deferOnly || h.knownFn || (h.nres > 0 && !nz.freeOK(h, h.decl.Type.Results, nz.pk, nz.file, call.Pos()))) {
+		return nil
+	}
+	if h.nres != 0 && !keep {
+		// `go h(x)` discards the results: usable when they are unnamed (every return is then rewritten below)
+		for _, fld := range h.decl.Type.Results.List {
+			if len(fld.Names) > 0 {
+				return nil
+			}
+		}
 	}
 	if !nz.freeOK(h, h.decl.Body, nz.pk, nz.file, call.Pos()) {
 		return nil
@@ -1630,9 +1667,51 @@ func (nz *normaliser) wrapGoDefer(call *ast.CallExpr) *ast.CallExpr {
 		ft.Params.List = append(ft.Params.List, &ast.Field{Names: []*ast.Ident{ast.NewIdent(b.name)}, Type: cloneNode(b.typ)})
 		args = append(args, b.arg)
 	}
+	if h.nres != 0 && !keep {
+		discardReturns(body)
+	}
 	nz.changed[nz.file] = true
+	if keep {
+		if h.nres > 0 {
+			ft.Results = cloneNode(h.decl.Type.Results)
+		}
+		nz.notes = append(nz.notes, fmt.Sprintf("call of %s (which defers) turned into an immediately invoked literal", funcName(h.obj)))
+		return &ast.CallExpr{Fun: &ast.ParenExpr{X: &ast.FuncLit{Type: ft, Body: body}}, Args: args}
+	}
 	nz.notes = append(nz.notes, fmt.Sprintf("go/defer of %s turned into a literal", funcName(h.obj)))
 	return &ast.CallExpr{Fun: &ast.FuncLit{Type: ft, Body: body}, Args: args}
+}
+
+// discardReturns rewrites every `return e1, e2` of body (nested literals excluded) into `{ e1'; e2'; return }`, where a call
+// stays a statement and any other expression is assigned to the blank identifier: the body of a function whose results nobody
+// reads.
+func discardReturns(body *ast.BlockStmt) {
+	astutil.Apply(body, func(c *astutil.Cursor) bool {
+		switch n := c.Node().(type) {
+		case *ast.FuncLit:
+			return false
+		case *ast.ReturnStmt:
+			if len(n.Results) == 0 {
+				return false
+			}
+			var list []ast.Stmt
+			for _, e := range n.Results {
+				if ce, ok := ast.Unparen(e).(*ast.CallExpr); ok {
+					list = append(list, &ast.ExprStmt{X: ce})
+				} else if _, isLit := ast.Unparen(e).(*ast.BasicLit); isLit {
+					continue
+				} else if id, isId := ast.Unparen(e).(*ast.Ident); isId && (id.Name == "nil" || id.Name == "true" || id.Name == "false") {
+					continue
+				} else {
+					list = append(list, &ast.AssignStmt{Lhs: []ast.Expr{ast.NewIdent("_")}, Tok: token.ASSIGN, Rhs: []ast.Expr{e}})
+				}
+			}
+			list = append(list, &ast.ReturnStmt{})
+			c.Replace(&ast.BlockStmt{List: list})
+			return false
+		}
+		return true
+	}, nil)
 }
 
 // expandAssignNew: `tmp := h(args)` for a fresh tmp.
@@ -2882,6 +2961,9 @@ func (nz *normaliser) dropUnused() {
 				if id, ok := n.(*ast.Ident); ok && id.Name == obj.Name() && id != h.decl.Name {
 					// after rewriting, any surviving identifier of that name that resolved to the helper is a reference
 					if h.pk.TypesInfo.Uses[id] == obj {
+						used = true
+					} else if h.pk.TypesInfo.Uses[id] == nil && h.pk.TypesInfo.Defs[id] == nil {
+						// an identifier of a copied subtree (no type information yet): the next round decides
 						used = true
 					}
 				}
